@@ -333,6 +333,18 @@ func TestVerifRaceGME(t *testing.T) {
 			{Mes: []vgME{{Name: "m1", Eps: []string{"c"}}}, Def: "m1"},
 			{Mes: []vgME{{Name: "m1", Eps: []string{"a"}}, {Name: "m3", Eps: []string{"a", "c"}}}, Def: "m3"},
 		}
+		// a second updater: applications may reconfigure from several goroutines (UpdateMultiEndpoints calls overlap, some
+		// adding pools and some removing them)
+		wg.Add(1)
+		go func() {
+			defer wg.Done()
+			r2 := rand.New(rand.NewSource(seed*31 + 7))
+			for atomic.LoadInt32(&stop) == 0 {
+				g.UpdateMultiEndpoints(h.opts(opts[r2.Intn(len(opts))]))
+				_ = g.GCPConfig()
+				time.Sleep(time.Duration(r2.Intn(2000)) * time.Microsecond)
+			}
+		}()
 		for i := 0; i < 12; i++ {
 			g.UpdateMultiEndpoints(h.opts(opts[r.Intn(len(opts))]))
 			_ = g.GCPConfig()
